@@ -1,13 +1,11 @@
-import TinsModel.Wire.Ip6.Family
-import TinsModel.Basic.CursorLemmas
-import TinsModel.Basic.CodecLemmas
-import TinsModel.Wire.ChainLemmas
-import TinsModel.Wire.IfaceLemmas
+import TinsModel.Wire.Ip6.ThFamily
 /-
-  Per-layer theorems of the Ip6 family for the four wire properties (C01 parse_safe, C02 writesOnly,
-  C03 reparse, C04 codec inverses).  See TinsModel/Wire/Transport/Theorems.lean for the worked example (UDP).
+  Per-layer theorems of the Ip6 family for the four wire properties:
+    ThParse    C01  jumboWalk_spec, extStep_spec, parseLoop_spec, ipv6_parse_safe / _consumes / _inv
+    ThWrite    C02  hdrSize_mod8, lengthOctet_exact (DESIGN §7 #18, all data sizes), writeHeaders_ok, ipv6_write_eq, ipv6_writesOnly
+    ThApi      C04  ipv6_apply_inv, setters as a last-write map, header bit packing
+    ThCodec    C01/C04  search_header, typed decoders: safety and codec inverses
+    ThReparse  C03/C04  extStep_written, parseLoop_written, ipv6_reparse, ipv6_reparse_parsed, ipv6_write_rederived
+    ThFindings C04  known findings KF-C04-Ip6-1 / -2: full statements, refutations on witnesses, partial theorems
+    ThFamily   the family-level statements the coordinator assembles
 -/
-namespace Tins.Wire.Ip6
-open Tins Tins.Wire
-
-end Tins.Wire.Ip6
